@@ -138,6 +138,11 @@ func LoadRules(rules []*Rule) (bool, error) {
 			// ignore it instead of dereferencing it
 			continue
 		}
+		if prev, exists := rulesMap[rule.Resource]; exists && isLoadable(prev) && !isLoadable(rule) {
+			// one rule per resource, the last one wins - but an invalid rule is to be ignored wherever it
+			// stands, it must not push a valid rule of the same resource out of the list
+			continue
+		}
 		rulesMap[rule.Resource] = rule
 	}
 	updateRuleMux.Lock()
@@ -149,6 +154,11 @@ func LoadRules(rules []*Rule) (bool, error) {
 	}
 	err := onRuleUpdate(rulesMap)
 	return true, err
+}
+
+// isLoadable reports whether onRuleUpdate would accept the rule.
+func isLoadable(rule *Rule) bool {
+	return IsValidRule(rule) == nil && circuitbreaker.IsValidRule(rule.Rule) == nil
 }
 
 // LoadRuleOfResource loads the given resource's outlier ejection rule to the rule manager, while previous resource's rule will be replaced.
